@@ -116,6 +116,35 @@ theorem holds_partial (p : List Instr) (pkt : List Nat) (hvm : newVM p = true)
   ⟨run_terminates_safely p pkt hvm (fun i hi => (himpl i hi).2),
    run_eq_ref_partial p pkt hvm (fun i hi => (himpl i hi).2) hk⟩
 
+/-! ### Run is a function of program and packet only -/
+
+/-- `Run` leaves the VM value unchanged. -/
+theorem run_preserves_vm (v : VM) (pkt : List Nat) : (v.run pkt).1 = v := rfl
+
+/-- Every call in a history of `Run` calls on one VM returns what a fresh run returns:
+`runSeq v pkts = pkts.map (runTyped v.filter)`. -/
+theorem runSeq_eq_map (v : VM) (pkts : List (List Nat)) : v.runSeq pkts = pkts.map (runTyped v.filter) := by
+  induction pkts generalizing v with
+  | nil => rfl
+  | cons pkt rest ih => simp [VM.runSeq, VM.run, ih]
+
+/-- Independence of previous runs: after ANY history of earlier packets, `Run(pkt)` gives the same result. -/
+theorem run_independent_of_history (v : VM) (history : List (List Nat)) (pkt : List Nat) :
+    (v.runSeq (history ++ [pkt])).getLast? = some (runTyped v.filter pkt) := by
+  simp [runSeq_eq_map]
+
+/-- Every run starts with zeroed scratch memory: a slot that is read before being written yields 0
+(whatever was stored there by earlier runs). -/
+theorem fresh_scratch_zero (dst : Nat) (n : Int) (pkt : List Nat) (h0 : 0 ≤ n) (h1 : n < 16)
+    (hd : dst = regA) : runTyped [.loadScratch dst n, .retA] pkt = .ret 0 := by
+  subst hd
+  simp [runTyped, runFuel, stepTyped, State.init, h0, h1]
+
+/-- The demo of seeded change c49b in the model: `if pkt[0] == 1 { M[5] = 1500 }; return M[5]` run on
+`[0,0xaa]`, `[1,0xaa]`, `[0,0xaa]` returns 0, 1500, 0. -/
+example : VM.runSeq ⟨[.loadAbsolute 0 1, .jumpIf jumpNotEqual 1 2 0, .loadConstant 0 1500, .storeScratch 0 5,
+    .loadScratch 0 5, .retA]⟩ [[0, 0xaa], [1, 0xaa], [0, 0xaa]] = [.ret 0, .ret 1500, .ret 0] := by decide
+
 /-! ### non-vacuity -/
 
 /-- An accepted program with every kind of implemented instruction (IPv4/TCP-port style filter), run on a
